@@ -25,6 +25,62 @@ CHECKS = {
         'DESIGN.md section 4 C01'),
 }
 
+CHECKS.update({
+    'C02': (
+        'Coq proof (row-major position lemmas for every polygon / centre / flattened element, holes keep slots) + '
+        'vm_compute correspondence',
+        'Theorems C02_* prove for every grid shape and hole pattern that position n of the cell-by-cell enumerations '
+        '(polygons, centres), of the flattened variable and of the spatial-index hits all denote the cell whose indexes are '
+        'the row-major unravelling of n, and that dropping geometry never shifts a later cell.  Tied to the code per run: '
+        'polygons and centres position by position against the model, every cell of every variable (flattened element vs '
+        'select_index(wind_index(n)) vs the raw array at the model\'s index), STRtree hits vs the model.',
+        'Trusted: Coq kernel; models Polygons.v / Flatten.v / Lookup.v / IndexConv.v; Geom predicates are executable '
+        'specifications validated against GEOS per case; shapely polygon construction and STRtree are not modelled.',
+        'DESIGN.md section 4 C02'),
+    'C03': (
+        'Coq proof (wind o ravel = id through labelled get, fresh dimension by pigeonhole, refusal) + vm_compute correspondence',
+        'Theorems C03_* prove for any rank, any position / order of the grid dimensions and any sizes that flattening then '
+        'winding returns the original value under every labelling with the grid dimensions restored after the untouched '
+        'other dimensions, that values are only moved (C03_ravel_get), that a variable on no grid is refused and that the '
+        'default linear name is unused.  The same executable definitions are evaluated by coqc on generated variables (all '
+        'permutations of <= 3 extra dimensions in the thorough tier, default / custom / colliding names, wind by position, '
+        'axis and name, wind-then-ravel) and diffed against ems.ravel / ems.wind / utils.*.',
+        'Trusted: Coq kernel; model Flatten.v (numpy transpose/reshape and xarray dims semantics are modelled). The '
+        'converse direction (ravel o wind = id) is checked per run on the implementation and by correspondence, not yet '
+        'as a theorem.',
+        'DESIGN.md section 4 C03'),
+    'C04': (
+        'Coq proof (lowest-index hit for every hit order, parametric in the intersection predicate) + vm_compute correspondence',
+        'Theorems C04_* prove for every polygon list with holes and every permutation in which the spatial index may '
+        'report its hits that sort-and-take-first returns an intersecting cell with geometry, that no intersecting cell '
+        'has a lower linear index, and that nothing is returned iff no cell meets the point.  Per run the model (exact '
+        'rational point-in-polygon) and a polygon-by-polygon GEOS oracle are compared with get_index_for_point on vertices, '
+        'edge midpoints, interior, just-outside and far points, each point looked up twice in different orders.',
+        'Trusted: Coq kernel; the predicate `meets` is a parameter of the theorems; its instance Geom.pt_meets_ring is an '
+        'executable specification validated against GEOS on every case; STRtree not modelled.',
+        'DESIGN.md section 4 C04'),
+    'C05': (
+        'Coq proof (vectorised isel through labelled get; hit/miss bookkeeping for error/drop/fill) + vm_compute correspondence',
+        'Theorems C05_* prove that row k of a selection is the stored value at the k-th requested index under any labelling '
+        'of the other dimensions, which variables are kept, that error names exactly the misses, drop keeps the hits in '
+        'request order under strictly increasing original labels, and fill keeps every row.  Per run the model is evaluated '
+        'on generated index lists (repeats, any order, mixed/empty) and point lists (interior, boundary, misses; first point '
+        'missing) and diffed against select_indexes / select_points / extract_points / extract_dataframe; values are also '
+        'compared bit-for-bit with the raw arrays at the cell a polygon-by-polygon oracle assigns.',
+        'Trusted: Coq kernel; model Select.v (xarray pointwise isel, pandas merge are modelled).',
+        'DESIGN.md section 4 C05'),
+    'C06': (
+        'Coq proof (cell-wise polygon position per convention, hole iff missing coordinate or non-simple ring, corner = '
+        'nanmean) + exact-rational vm_compute correspondence',
+        'Theorems C06_* state per convention which coordinates form the polygon at each position, when a cell has none and '
+        'what synthesised bounds are.  Per run the model computes every polygon exactly (rationals) from the generated '
+        'coordinates and the implementation\'s polygons, mask, InvalidPolygonWarning, bounds and geometry are compared with '
+        'it, with coordinate / bounds variables held as coordinates and as plain variables.',
+        'Trusted: Coq kernel; model Polygons.v; ring_simple is an executable specification of shapely.is_valid validated per '
+        'case; unary_union is GEOS (geometry compared with the union of the polygons by shapely.equals).',
+        'DESIGN.md section 4 C06'),
+})
+
 NOT_YET = 'check not built yet in this session (work in progress; the design in DESIGN.md section 4 applies)'
 
 
